@@ -254,6 +254,9 @@ func TestVF_C29(t *testing.T) {
 		"(1) CRASH after every bucket-changing operation k (fresh compactor + fresh directory on the content left behind; for every 8th k, thorough all, produced live by fail-stop of the bucket + cancellation with the working directory kept; " +
 		"thorough crashes the restarted run once more); (2) TRANSIENT failure of every bucket-changing operation k, everything later works: variant 'lost' (not applied, error) and variant 'applied' (applied, but reported as failed) - " +
 		"quick alternates the variants over k, thorough runs both; (3) TRANSIENT failure of the compactor's own reads (block download, exists checks, listings; sync reads belong to C33) - quick every 4th, thorough all; " +
+		"(4) a BACKGROUND ACTIVITY of another user of the same Syncer/filters/cleaner run to completion inside bucket operation k (every operation of a result upload after its first, the operation after it, every 20th other operation of the compactor proper): " +
+		"{SyncMetas, SyncMetas+partial-upload clean-up with the Syncer's Partial(), partial-upload clean-up, DeleteMarkedBlocks, GarbageCollect, SyncMetas+GarbageCollect}, optionally with one transient fault inside it (attribute listings fail / one sync read fails); the cycle continues; " +
+		"after quiescence all objects are served as older than the partial-upload threshold and the same compactor runs on (quick: a rotating quarter of the combinations per point, thorough: all); " +
 		"after a transient fault the cycle finishes or returns its error, then a fresh compactor runs to quiescence; oracle after EVERY applied mutating operation of every run: in both store-gateway views " +
 		"(real MetaFetcher + IgnoreDeletionMarkFilter + DefaultDeduplicateFilter; deletion marks not yet effective / all effective) the complete selected blocks hold every sample of the original blocks and no other sample; " +
 		"at quiescence with all marks effective every sample is held exactly once; distinct = (set, fault kind, fault position); non-trivial = the fault was injected")
@@ -418,6 +421,16 @@ func TestVF_C29(t *testing.T) {
 						}
 						core, st := newRun(snap, phase, k)
 						ran := false
+						// time passes only where it can matter: after an activity that touched the Syncer's view or the partial-upload clean-up
+						var aging func()
+						if j.act != "clean-marked" && j.act != "gc" {
+							aging = func() {
+								core.setLastModAll(time.Now().Add(-PartialUploadThresholdAge - 24*time.Hour))
+								st.mu.Lock()
+								st.phase = phase + ":aged"
+								st.mu.Unlock()
+							}
+						}
 						_, quiescent, err := env.runToQuiescenceWith(ctx, core, dir, func(comp *vfcrigCompactor, cctx context.Context) {
 							core.setBeforeOp(k, func(vfcfbOp) {
 								switch j.flt {
@@ -431,18 +444,16 @@ func TestVF_C29(t *testing.T) {
 								core.armReadFault(0, nil)
 								ran = true
 							})
-						}, func() {
-							core.setLastModAll(time.Now().Add(-PartialUploadThresholdAge - 24*time.Hour))
-							st.mu.Lock()
-							st.phase = phase + ":aged"
-							st.mu.Unlock()
-						})
+						}, aging)
 						switch {
 						case st.isViolated():
 						case !ran:
 							r.Count("background_hook_not_reached", 1)
 						case err != nil:
-							r.Inconclusive(fmt.Sprintf("run with background %s at operation %d failed on set %s: %v", phase, k, set.Name, err))
+							// e.g. two cleaners deleting the same block: the iteration fails; as after any failed cycle a fresh compactor takes over
+							r.Distinct(fmt.Sprintf("%d|%s|%d|%s", c, set.Name, k, phase))
+							r.Count("background_"+j.act+"_then_cycle_error", 1)
+							restart(core, st, k, dir, false)
 						case !quiescent:
 							r.Inconclusive(fmt.Sprintf("run with background %s at operation %d not quiescent on set %s", phase, k, set.Name))
 						default:
@@ -545,7 +556,7 @@ func TestVF_C29(t *testing.T) {
 		// background activities: inside every operation of a result upload after its first one (and inside the operation that follows the
 		// upload), and inside every 10th other operation of the compactor proper
 		type combo struct{ act, flt string }
-		combos := []combo{{"sync", ""}, {"sync+partial-cleanup", "attr-listing"}, {"sync+partial-cleanup", ""}, {"sync", "sync-read"}, {"clean-marked", ""}, {"sync+gc", ""}, {"partial-cleanup", "attr-listing"}, {"gc", ""}}
+		combos := []combo{{"sync", ""}, {"sync+partial-cleanup", ""}, {"clean-marked", ""}, {"sync+partial-cleanup", "attr-listing"}, {"sync+gc", ""}, {"sync", "sync-read"}, {"gc", ""}, {"partial-cleanup", "attr-listing"}}
 		inUpload := map[string]bool{}
 		pi := 0
 		for i, o := range cfOps {
@@ -569,13 +580,13 @@ func TestVF_C29(t *testing.T) {
 			}
 			if point {
 				for ci, cb := range combos {
-					if r.Thorough() || (ci+pi)%2 == 0 {
+					if r.Thorough() || (ci+pi)%4 == 0 {
 						jobs <- job{k: o.Seq, kind: "background", act: cb.act, flt: cb.flt}
 					}
 				}
 				pi++
-			} else if i%10 == c%10 {
-				cb := combos[(i/10)%len(combos)]
+			} else if i%20 == c%20 {
+				cb := combos[(i/20)%len(combos)]
 				jobs <- job{k: o.Seq, kind: "background", act: cb.act, flt: cb.flt}
 			}
 		}
